@@ -43,4 +43,11 @@ RdfCounts(pos, cell, periodic, pairs, lo, nbins) ==
    [b \in 1..nbins |-> Cardinality({ k \in 1..Len(pairs) :
         LET d2 == PairD2(pos, cell, periodic, pairs[k][1], pairs[k][2]) IN
         (2*lo + 2*b - 1) * (2*lo + 2*b - 1) <= 4 * d2 /\ 4 * d2 < (2*lo + 2*b + 1) * (2*lo + 2*b + 1) })]
+\* ---- DRID: for every selected atom, the squared distances to the selected atoms that are neither itself nor bonded to it -----
+\* (the moments of the reciprocal distances are evaluated in doubles by the harness from these exact integers)
+DridPartners(bonds, sel, i) == { j \in sel : j # i /\ ~\E b \in 1..Len(bonds) : (bonds[b][1] = i /\ bonds[b][2] = j) \/ (bonds[b][2] = i /\ bonds[b][1] = j) }
+SortedSeq(S) == LET RECURSIVE F(_) F(T) == IF T = {} THEN <<>> ELSE LET x == CHOOSE y \in T : \A z \in T : y <= z IN <<x>> \o F(T \ {x}) IN F(S)
+DridD2(pos, bonds, sel, i) == LET ps == SortedSeq(DridPartners(bonds, sel, i)) IN [m \in 1..Len(ps) |-> <<ps[m], N2(Sub(pos[i], pos[ps[m]]))>>]
+\* ---- dipole moment of a neutral charge set: sum q x (origin independent) ------------------------------------------------
+DipoleNum(q, pos) == [c \in 1..3 |-> SumOverAtoms(Len(pos), LAMBDA i : q[i] * pos[i][c])]
 =======================================================================
